@@ -89,7 +89,7 @@ pub mod internals {
     };
     pub use crate::disk_store::meta_store::{MetaStore, PartitionMetadata, SubpartitionMetadata};
     pub use crate::disk_store::wal_segment::WalSegment;
-    pub use crate::engine::data_types::{BasicType, EncodingType};
+    pub use crate::engine::data_types::{BasicType, BoxedData, Data, EncodingType};
     pub use crate::mem_store::column_buffer::ColumnBuffer;
     pub use crate::mem_store::{Codec, CodecOp, Column, DataSection, DataSource};
     pub use crate::disk_store::storage::{verif_partition_filename, verif_sanitize_table_name};
